@@ -81,7 +81,7 @@ func runC03(t *testing.T, seed uint64, planJSON []byte, tier string) (res *Resul
 func c03Opts(g *simkit.Gen) GenOpts {
 	o := defaultGenOpts()
 	o.Types = pickSome(g, []string{"int", "varchar", "bigint", "decimal", "datetime"}, 2)
-	o.PKKinds = pickSome(g, []string{"int", "str", "comp", "auto", "date", "ubig"}, 1)
+	o.PKKinds = pickSome(g, []string{"int", "str", "comp", "auto", "date", "ubig", "dec"}, 1)
 	o.WhereForms = pickSome(g, []string{"pk", "in", "between", "or", "paren", "and"}, 1)
 	o.Params = g.Prob(0.8)
 	return o
@@ -301,6 +301,67 @@ func runC03SFU(t *testing.T, seed uint64, planJSON []byte, tier string) (res *Re
 			}
 			if len(sim.Violations()) > 0 {
 				break
+			}
+		}
+		// "the same row always yields the same key text whatever statement form
+		// touched it": a DML statement on the rows the locking reads asked about
+		if len(sim.Violations()) == 0 && len(plan.Tables[0].Rows) > 0 {
+			asked := map[string]string{}
+			for _, rec := range tc.Log {
+				if rec.F.Body != nil && rec.F.Body.Code == simtc.TGlobalLockQuery {
+					for k, raw := range rawLockKeys(rec.F.Body.LockKey) {
+						asked[k] = raw
+					}
+				}
+			}
+			if err := r.resetData(); err == nil && len(asked) > 0 {
+				tc.Rules = nil
+				t0 := &plan.Tables[0]
+				var setCol string
+				for _, c := range t0.Cols {
+					if !t0.isPK(c.Name) {
+						setCol = c.Name
+						break
+					}
+				}
+				logStart := len(tc.Log)
+				done := false
+				sim.Go("sfu-dml", func() {
+					defer func() { recover(); done = true }()
+					tm.WithGlobalTx(context.Background(), &tm.GtxConfig{Name: "sfu-dml", Timeout: 60 * time.Second}, func(ctx context.Context) error {
+						for _, row := range t0.Rows {
+							var conds []string
+							for j, c := range t0.Cols {
+								if t0.isPK(c.Name) {
+									conds = append(conds, c.Name+" = "+row[j].Lit())
+								}
+							}
+							r.db.ExecContext(ctx, fmt.Sprintf("UPDATE %s SET %s = %s WHERE %s", t0.Name, setCol, setCol, strings.Join(conds, " AND ")))
+						}
+						return errBusiness
+					})
+				})
+				t1 := sim.Now()
+				sim.Run(func() bool { return done || sim.Now()-t1 > 900*time.Second })
+				t2 := sim.Now()
+				sim.Run(func() bool { return sim.Now()-t2 > 5*time.Second && sim.Enabled() == 0 && tc.PendingP2() == 0 })
+				compared := 0
+				for _, rec := range tc.Log[logStart:] {
+					if rec.F.Body == nil || rec.F.Body.Code != simtc.TBranchRegister {
+						continue
+					}
+					for k, raw := range rawLockKeys(rec.F.Body.LockKey) {
+						if q, ok := asked[k]; ok {
+							compared++
+							if q != raw {
+								sim.Violate("C03", "lock-key-stable", "lock-key-text-differs-dml-vs-locking-read", "row %s: an UPDATE registered the lock key %q, a SELECT ... FOR UPDATE had asked the coordinator about %q", k, raw, q)
+							}
+						}
+					}
+				}
+				if compared > 0 {
+					sim.Probe("c03-key-text-of-dml-and-locking-read-compared")
+				}
 			}
 		}
 		plan.Tape = tape.Rec
